@@ -193,7 +193,56 @@ def _same(x, cls, variant):
         return _copy.copy(bitstring.Array("u1", x)).data
     if variant == "arrslice":
         return bitstring.Array("u1", x)[0:len(x)].data
+    if variant in ("arrand1", "arror1", "arriand1", "arrior1"):
+        # an Array of exactly ONE item as wide as x, combined bit-wise with x itself (x & x = x | x = x): the result's data
+        # is a new object with x's bits, and the operand x is never written to
+        if len(x) == 0:
+            return CLASSES[cls]() if cls in CLASSES else BitArray()
+        a = bitstring.Array(f"u{len(x)}", [x.uint])
+        if variant == "arrand1":
+            return (a & x).data
+        if variant == "arror1":
+            return (a | x).data
+        if variant == "arriand1":
+            a &= x
+            return a.data
+        a |= x
+        return a.data
     raise ValueError(variant)
+
+
+PROBES = ["arrand0", "arrxor1", "arror0", "arriand0", "arrixor1", "arrrand0", "arr3and0", "cmp", "contains", "join3", "packmix"]
+
+
+def _probe(x, kind):
+    """operations in which x is only an operand; none of them may change x"""
+    n = len(x)
+    if kind.startswith("arr"):
+        if n == 0:
+            return
+        ones = (1 << n) - 1
+        if kind == "arrand0":
+            bitstring.Array(f"u{n}", [0]) & x            # ONE item: the operand must not become the mask buffer
+        elif kind == "arrxor1":
+            bitstring.Array(f"u{n}", [ones]) ^ x
+        elif kind == "arror0":
+            bitstring.Array(f"u{n}", [ones]) | x
+        elif kind == "arriand0":
+            a = bitstring.Array(f"u{n}", [0]); a &= x
+        elif kind == "arrixor1":
+            a = bitstring.Array(f"u{n}", [ones]); a ^= x
+        elif kind == "arrrand0":
+            x & bitstring.Array(f"u{n}", [0])
+        elif kind == "arr3and0":
+            bitstring.Array(f"u{n}", [0, ones, 0]) & x
+    elif kind == "cmp":
+        x == BitArray(x); x != "0b1"; x in {Bits(x)} if not isinstance(x, BitArray) else None
+    elif kind == "contains":
+        ("0b1" in x) if n else None; x.startswith(x); x.endswith(x); x.count(1)
+    elif kind == "join3":
+        BitArray().join([x, x, x]).invert() if n else None
+    elif kind == "packmix":
+        r = bitstring.pack("bits, 0b1, bits", x, x); r.invert()
 
 
 def same_cls(src_cls, variant):
@@ -201,7 +250,7 @@ def same_cls(src_cls, variant):
         return "BitStream"
     if variant in ("parse",):
         return "Bits"
-    if variant in ("arrdata", "arrcopy", "arrslice"):
+    if variant in ("arrdata", "arrcopy", "arrslice", "arrand1", "arror1", "arriand1", "arrior1"):
         return "BitArray"
     return src_cls
 
@@ -246,6 +295,15 @@ def execute(line):
                 objs.append((x & x) if len(objs) % 2 else (x | x))
             elif k == "slice":
                 objs.append(objs[int(f[1])][int(f[2]):int(f[3])])
+            elif k == "probe":
+                # an operation that takes objs[i] as an OPERAND and must leave it alone (the result is discarded); the new
+                # object is the empty slice objs[i][0:0], which is what the model sees
+                x = objs[int(f[1])]
+                try:
+                    _probe(x, f[2])
+                except Exception:                                   # noqa: BLE001
+                    pass
+                objs.append(x[0:0])
             elif k == "same":
                 objs.append(_same(objs[int(f[2])], f[1], f[3]))
             elif k == "not":
@@ -368,6 +426,8 @@ def _reference(ops):
             objs.append(objs[int(f[1])]); classes.append(classes[int(f[1])])
         elif k == "slice":
             objs.append(objs[int(f[1])][int(f[2]):int(f[3])]); classes.append(classes[int(f[1])])
+        elif k == "probe":
+            objs.append(""); classes.append(classes[int(f[1])])
         elif k == "same":
             objs.append(objs[int(f[2])]); classes.append(f[1])
         elif k == "not":
@@ -431,6 +491,8 @@ def model_line(line):
         f = op.split(":")
         if f[0] in ("str", "fromstring") and len(f) > 3:
             op = ":".join(f[:3])
+        if f[0] == "probe":
+            op = f"slice:{f[1]}:0:0"
         out.append(op)
     return SEP.join(out)
 
@@ -452,7 +514,7 @@ def nontrivial(line):
 
 
 SAME_VARIANTS = ["mul1", "rshift0", "addempty", "pack", "packkw", "unpack", "join", "parse", "bitsprop", "cut", "slicefull",
-                 "arrdata", "arrcopy", "arrslice"]
+                 "arrdata", "arrcopy", "arrslice", "arrand1", "arror1", "arriand1", "arrior1"]
 
 
 def _routes(i, src_cls, bits, rng):
@@ -476,6 +538,12 @@ def _routes(i, src_cls, bits, rng):
 
 def gen(rng, tier):
     big = tier != "quick"
+    # 00. probes: operations that take an object only as an operand (Array bit-wise operators with one / several items, …)
+    for bits in ("10100101", "1", "110011110000"):
+        for cls in CLASS_NAMES:
+            for kind0 in ("new", "str"):
+                for pk in PROBES:
+                    yield SEP.join(["C04", "hist", f"{kind0}:{cls}:{bits}", f"probe:0:{pk}", f"str:Bits:{bits}", f"probe:2:{pk}", f"mut:0:invert"])
     # 0. literals that share one cache entry: token-less strings ('' / ' ' / ' , ') and alternative spellings, with a
     #    mutable object the FIRST to be built from the literal, grown in place, then other objects from the same literal
     for sp in ("e", "w", "c"):
@@ -602,6 +670,9 @@ def gen(rng, tier):
                     elif f[0] == "not":
                         v = _apply_kind_bits(v, "invert")
                     vals.append(v)
+            elif r < 0.58:
+                i = rng.randrange(len(classes))
+                ops.append(f"probe:{i}:{rng.choice(PROBES)}"); classes.append(classes[i]); vals.append("")
             elif r < 0.62 and len(classes) >= 2:
                 i, k = rng.randrange(len(classes)), rng.randrange(len(classes))
                 v, rc = rng.choice([("plus", classes[i]), ("pack2", "BitStream"), ("join2", classes[i])])
